@@ -1154,17 +1154,8 @@ func (fr *Frame) completeCandidates(v ssa.Value) bool {
 	case *ssa.Alloc:
 		al = x
 	case *ssa.FreeVar:
-		// captured variable of an enclosing function: find the Alloc bound at the MakeClosure
-		if fr.mc == nil {
-			return false
-		}
-		for i, fv := range fr.fn.FreeVars {
-			if fv == x && i < len(fr.mc.Bindings) {
-				if a, ok := fr.mc.Bindings[i].(*ssa.Alloc); ok {
-					al = a
-				}
-			}
-		}
+		// captured variable of an enclosing function: the Alloc bound at the (only) MakeClosure of this function
+		al = staticBindingAlloc(x, 0)
 	}
 	if al == nil || fr.u.allocEscapes(al) {
 		return false
@@ -1219,6 +1210,12 @@ func (fr *Frame) funcLeaves(v ssa.Value, depth int) ([]ssa.Value, bool) {
 			return nil, false
 		}
 		al, ok := x.X.(*ssa.Alloc)
+		if !ok {
+			if fv, isFV := x.X.(*ssa.FreeVar); isFV {
+				al = staticBindingAlloc(fv, 0)
+				ok = al != nil
+			}
+		}
 		if !ok || fr.u.allocEscapes(al) {
 			return nil, false
 		}
@@ -1597,4 +1594,43 @@ func dynTypeTag(t types.Type) string {
 		}
 	}
 	return t.String()
+}
+
+// staticBindingAlloc: the variable (Alloc of an enclosing function) that the free variable fv of a closure is bound
+// to, when the closure's function has exactly one MakeClosure site.
+func staticBindingAlloc(fv *ssa.FreeVar, depth int) *ssa.Alloc {
+	fn := fv.Parent()
+	if fn == nil || fn.Parent() == nil || depth > 4 {
+		return nil
+	}
+	idx := -1
+	for i, f := range fn.FreeVars {
+		if f == fv {
+			idx = i
+		}
+	}
+	if idx < 0 {
+		return nil
+	}
+	var site *ssa.MakeClosure
+	for _, b := range fn.Parent().Blocks {
+		for _, in := range b.Instrs {
+			if mc, ok := in.(*ssa.MakeClosure); ok && mc.Fn == ssa.Value(fn) {
+				if site != nil {
+					return nil
+				}
+				site = mc
+			}
+		}
+	}
+	if site == nil || idx >= len(site.Bindings) {
+		return nil
+	}
+	switch b := site.Bindings[idx].(type) {
+	case *ssa.Alloc:
+		return b
+	case *ssa.FreeVar:
+		return staticBindingAlloc(b, depth+1)
+	}
+	return nil
 }
